@@ -652,7 +652,7 @@ def shuttle_runs(ctx, vd, binary, iters, procs):
             if files:
                 v["schedule"] = open(files[0]).read()
         return rep
-    with ThreadPoolExecutor(max_workers=procs) as ex:
+    with ThreadPoolExecutor(max_workers=NCPU) as ex:
         reps = list(ex.map(one, range(procs)))
     for r in reps:
         vd.add("shuttle", r)
@@ -700,7 +700,8 @@ def check_C07(ctx, tier, seed):
         degraded.append("(a) simulated-CPU sweep skipped: the hooked build (--cfg fast_tlsh_verif) does not compile on this tree")
     # (b) first-call races under shuttle (random + PCT)
     if shuttle_bin:
-        shuttle_runs(ctx, vd, shuttle_bin, 2_000 if quick else 100_000, NCPU)
+        # many processes: state that bypasses the resettable once-cell is only "first" once per process
+        shuttle_runs(ctx, vd, shuttle_bin, 1_000 if quick else 50_000, 4 * NCPU)
     else:
         degraded.append("(b) shuttle races skipped: the shuttle build does not compile on this tree")
     if degraded:
@@ -818,7 +819,7 @@ def check_C18(ctx, tier, seed):
         # several real threads of one process inside the core operations at the same time (contended process-wide state)
         sim_batch_procs(ctx, vd, cfg, bins[cfg], "c18mt", 16000 if quick else 640000, procs=8)
     nostd_builds(ctx, vd, NOSTD_FEATURE_SETS if not quick else NOSTD_FEATURE_SETS[:12])
-    vd.extra["grid"] = "states = (variant, op kind [14], first call of that kind in the run?) -> 5 x 18 x 2 = 180 cells per build; see distinct_states"
+    vd.extra["grid"] = "states = (variant, op kind [14], first call of that kind in the run?) -> 5 x 19 x 2 = 190 cells per build; see distinct_states"
     vd.extra["components_real"] = ["every core operation of fast-tlsh (new/update/finalize/processed_len/clone/from_str_bytes/TryFrom/store_*/compare/max_distance/clear_checksum/accessors/quartile), incl. first (dispatch-initialising) calls in fresh processes and on fresh threads"]
     vd.extra["components_stub"] = ["the global allocator (SimAlloc: counts while armed; returns null while armed in the allocation-failure sub-batches)"]
     vd.extra["builds"] = ALLOC_CONFIGS
